@@ -36,6 +36,9 @@ REPO = Path(os.environ.get('VERIF_REPO', '/repo'))
 OUT = Path(__file__).resolve().parent.parent / 'coq' / 'theories' / 'Gen' / 'Control.v'
 
 
+KNOWN_CLASSES = set()
+
+
 class Untranslatable(Exception):
     pass
 
@@ -453,6 +456,9 @@ class Unit:
                 classes = [h.type] if not isinstance(h.type, ast.Tuple) else list(h.type.elts)
                 if not all(isinstance(c, ast.Name) for c in classes):
                     raise Untranslatable('except class expression')
+                for c in classes:
+                    if c.id != 'Exception' and c.id not in KNOWN_CLASSES:
+                        raise Untranslatable(f'handler for {c.id}: not a class of pypyr/errors.py')
                 names = '[' + '; '.join(coq_str(c.id) for c in classes) + ']'
                 henv = dict(env)
                 if h.name:
@@ -849,6 +855,7 @@ def main():
              '']
     try:
         rows = class_table(ast.parse((REPO / 'pypyr/errors.py').read_text()))
+        KNOWN_CLASSES.update(c for c, _ in rows)
         tbl = ';\n   '.join('(' + coq_str(c) + ', [' + '; '.join(coq_str(b) for b in bs) + '])' for c, bs in rows)
         lines += ['(* source: pypyr/errors.py — class statements, in order *)',
                   f'Definition errors_classes : classtable :=\n  [{tbl}].', '']
